@@ -6,7 +6,7 @@ import numpy as np
 import core
 import gen
 
-PROOF_MODULES = ["UnytProofs.C03", "UnytProofs.C03History"]
+PROOF_MODULES = ["UnytProofs.C03", "UnytProofs.C03History", "UnytProofs.C03Routes"]
 
 EPS = {"float64": 2.0 ** -52, "float32": 2.0 ** -23, "complex128": 2.0 ** -52, "int32": 2.0 ** -23, "int64": 2.0 ** -52}
 
@@ -280,6 +280,8 @@ def run(tier, seed):
     model_expect = []
     hist_lines = []
     hist_expect = []
+    route_lines = []
+    route_expect = []
     dtypes = ["float64", "float32", "complex128", "int32"]
     max_triples = 1500 if tier == "quick" else 40000
     for fam, names in fams.items():
@@ -420,6 +422,14 @@ def run(tier, seed):
                         chk.fail(f"base-routes|{famkind}|{rn}", f"{rn}({sysname}) disagrees with in_base",
                                  {"python": snippet(f"x = unyt_array(np.array({raw.tolist()!r}), '{a}')\nrb = x.in_base('{sysname}')\ny = x.copy(); y.convert_to_base('{sysname}')\nv = x.to(x.units.get_base_equivalent('{sysname}'))\n"
                                                      f"for r in (y, v, x.in_{sysname}()):\n    assert np.all(np.abs(r.d - rb.d) <= {tolb!r}) and r.units == rb.units, (r, rb)\n"), "units": [a, sysname]})
+            # both routes of the model, EM branch included (UnytModel/ConvRoutes.lean)
+            try:
+                wa = list(map(str, gen.expr_wire(ua.expr)))
+                wb = list(map(str, gen.expr_wire(ub.expr)))
+                route_lines.append("\t".join(["c03.routes", str(core.f2b(float(raw[0])))] + wa + wb))
+                route_expect.append((fam, a, b, float(results["in_units"].d[0]), float(results["convert_to_units"].d[0]), tol, is_em))
+            except ValueError:
+                pass
             # model comparison (non-EM pairs)
             if not is_em:
                 try:
@@ -469,6 +479,18 @@ def run(tier, seed):
                 chk.disagree("c03.hist", f"{fam}: call {i} ({ops[i % len(ops)]}) of history from {a0}: model {mv if mv.startswith('err') else core.b2f(mv)} vs implementation {rv}",
                              {"history": [a0] + [list(o) for o in ops]})
                 break
+    try:
+        rreplies = core.Model("drv_c03").ask(route_lines)
+    except Exception as e:
+        rreplies = []
+        chk.disagree("driver", repr(e))
+    for rep, (fam, a, b, r_in, r_cv, tol, is_em) in zip(rreplies, route_expect):
+        chk.count("model:c03.routes" + (":em" if is_em else ""))
+        bad = rep[0] != "ok" or len(rep) != 3 or rep[1].startswith("err") or rep[2].startswith("err")
+        if not bad:
+            bad = not (abs(core.b2f(rep[1]) - r_in) <= tol and abs(core.b2f(rep[2]) - r_cv) <= tol)
+        if bad:
+            chk.disagree("c03.routes", f"{a}->{b}: model {rep} vs implementation in_units {r_in} convert_to_units {r_cv}", {"units": [a, b]})
     rule = ("ordered triples (A,B,C) of commensurable unit strings per family (temperature incl. SI prefixes, angle incl. lat/lon, "
             "EM pairs with prefixes, table groups by dimension, re-expressed compounds) x seeded data x dtype x shape; "
             "plus conversion histories (in-place / copy calls on one array interleaved with calls on temporaries built from unit names, 6 rounds each); "
